@@ -3605,9 +3605,19 @@ class SEVM:
                     state.push(self.arith(ex, opcode, state.popi(), state.popi()))
 
                 elif opcode == OP_SIGNEXTEND:
-                    w1 = ex.int_of(state.popi(), "symbolic SIGNEXTEND size")
+                    w1 = state.popi()
                     w2 = state.popi()
-                    state.push(w2.signextend(w1))
+                    try:
+                        size = ex.int_of(w1, "symbolic SIGNEXTEND size")
+                        state.push(w2.signextend(size))
+                    except NotConcreteError:
+                        # symbolic size: select among the 31 possible extensions
+                        # (sizes >= 31 leave the word unchanged)
+                        idx = w1.as_z3()
+                        result = w2.as_z3()
+                        for k in range(30, -1, -1):
+                            result = If(idx == k, w2.signextend(k).as_z3(), result)
+                        state.push_any(result)
 
                 else:
                     # TODO: switch to InvalidOpcode when we have full opcode coverage
